@@ -23,7 +23,7 @@ CHECKS = {
    text="Crash images (page cache survives) at a seeded sample of the file-mutation points of every run (thorough: all), plus torn prefixes of writes at record-field boundaries, in FileIO and MMap, SyncEnable on/off, with same-millisecond transactions and failed commits; every image is mounted, opened and fully observed and must equal the acknowledged state or that plus the in-flight transaction. One run in seven is a scheduled multi-goroutine program: the image must show a prefix of the lock-grant order that contains every acknowledged write transaction and only transactions that had been granted the lock.",
    note="Process-crash model: completed writes survive, the write in flight survives as a prefix. Restart takes >= 1 ms."),
  "C11": dict(cat="fault_enumeration", tech="deterministic simulation with power-loss injection: per-file durable image + seeded subset/prefix/torn unsynced operations, recovery judged against S / S+T",
-   text="As C10 with SyncEnable=true and power-loss images: files revert to their last-synced content plus a seeded choice among unsynced operations; unsynced creations may vanish and removals may be undone. One run in eight is a scheduled multi-goroutine program judged like C10's scheduled sub-batch.",
+   text="As C10 with SyncEnable=true and power-loss images: files revert to their last-synced content plus a seeded choice among unsynced operations; unsynced creations may vanish and removals may be undone. One run in seven is a sparse-index-mode history with power-loss images of the quiescent state after every transaction, Merge and reopen; one in eight is a scheduled multi-goroutine program judged like C10's scheduled sub-batch.",
    note="Assumes (as the property grants) that a sync of a file persists its directory entry, and that directories are durable once created."),
  "C13": dict(cat="exploration", tech="deterministic simulation: self-reading multi-op transactions judged by a strict sequential model, with deviant-model attribution of the recorded known finding",
    text="Seeded write transactions that read/pop structures they already modified, judged by the strict sequential model; runs the strict model rejects are excused only when the single deviant switch (evaluate on the start state, apply at commit) explains every result and observation.",
@@ -35,7 +35,7 @@ CHECKS = {
    text="Histories in which transactions end by function error, Rollback, oversized entry at any position or one injected I/O fault at a seeded I/O point of their commit (incl. the rotation it triggers); read-only transactions calling mutating APIs; calls on finished transactions; the full observation after every step and after reopen must equal the model in which those transactions never happened (sync error: all-or-nothing).",
    note="RAM index modes. Whether the database accepts further writes after an injected error is not part of the property (probe only)."),
  "C15": dict(cat="exploration", tech="deterministic simulation: seeded histories with Merge at seeded points (also failing through injected I/O errors), refinement of full observations against a model in which Merge is a no-op",
-   text="KV (TTL, deletes, failed transactions; both RAM modes), sets and sorted sets (ZAdd/ZRem) with 64-256 B segments; Merge at seeded points, twice in a row, failing via injected open/truncate/remove/read/write errors; later writes; reopen; every observation equals the model.",
+   text="KV (TTL, deletes, failed transactions; both RAM modes), sets and sorted sets (ZAdd/ZRem) with 64-256 B segments; Merge at seeded points, twice in a row, failing via injected open/truncate/remove/read/write errors; later writes; reopen; every observation equals the model; a Merge that fails although no fault was injected is a violation (the simulated process has 24 descriptors).",
    note="Known findings K4 (positional sorted-set removals under a partial Merge) and K5 (lists under Merge) are avoided narrowly and re-demonstrated from their witnesses."),
  "C16": dict(cat="fault_enumeration", tech="deterministic simulation with crash injection inside Merge: crash and torn images at Merge's file-mutation points, recovery must equal the pre-Merge model state",
    text="C15's histories with crash and torn-write images at the file-mutation points inside Merge (quick: half, thorough: all); each image is mounted, opened and fully observed and must equal the state before Merge. One run in five runs Merge beside 2-5 scheduled tasks of View/Update transactions; an image from inside Merge must show a prefix of the lock-grant order between 'acknowledged' and 'granted'.",
@@ -50,7 +50,7 @@ CHECKS = {
    text="Two to four buckets with names that are prefixes of each other / equal to keys / empty / contain '|' and keys chosen so that bucket+key concatenations coincide; KV in all index modes, lists/sets/sorted sets in key+value mode; single-bucket transactions; reopens; every read of every bucket compared with the model after every step.",
    note="Known finding K6 (sparse mode indexes by the bare concatenation bucket+key) is avoided in sparse mode only, by equal-length bucket names; it is re-demonstrated from its witness."),
  "C19": dict(cat="exploration", tech="deterministic simulation: the same seeded program executed in 8-24 worlds that differ only in storage options, with identical simulated clock and seeded math/rand, call-by-call differential comparison",
-   text="One seeded program per run executed once for every combination of RWMode x StartFileLoadingMode x SyncEnable (KV-only programs also x the three index modes); every call result, every commit outcome and the full observation after a final reopen must equal those of the reference combination.",
+   text="One seeded program per run executed once for every combination of RWMode x StartFileLoadingMode x SyncEnable (KV-only programs also x the three index modes); every call result, every commit outcome and the full observation after a final reopen must equal those of the reference combination. A third of the programs change the SegmentSize at some of their reopens.",
    note="SPop is not issued (Go map order); an empty scan result and the not-found error count as the same answer."),
  "C20": dict(cat="exploration", tech="deterministic simulation used for seeded stateful API fuzzing with boundary-heavy arguments and lifecycle misuse; oracle: no recovered panic in any call, Commit or Open",
    text="Boundary-heavy arguments (int64 extremes, NaN/Inf, separators, empty names, bad regexps) in arbitrary order, in self-modifying transactions, read-only transactions, finished transactions, on a closed database (Update/View/Merge/Backup/Close), Update(nil), with reopens; one run in five is a scheduled program in which one task calls Close (others: transactions, Merge, Backup) at a seeded point of the others' Begin/Commit paths; no call, later Commit or later Open may panic.",
@@ -69,7 +69,7 @@ CHECKS = {
    note="utils/filesystem.CopyDir is the real code running on the simulated disk."),
  "C21": dict(cat="fault_enumeration", tech="deterministic simulation with stored-byte corruption: round trip through reopen in all index modes, then single bit flips / truncations of record-bearing files with an exact replay oracle (RAM modes) and a genuineness oracle (all modes)",
    text="Seeded KV histories with extreme field values are read back after reopens in all index modes; the closed directory is then damaged one fault at a time (bit flip in the used bytes of a .dat/.bptridx/.meta file, or truncation) and Open, all reads, Merge and a second reopen run on each damaged copy: every returned pair must be a pair some Put stored for that bucket and key, and in the RAM index modes the contents must equal a replay of the stored records with the damaged record (and optionally the rest of its file) absent.",
-   note="B+ tree node files carry no checksum and are not damaged; flips that turn a length field into >= 64 KiB are moved to the low 16 bits (the implementation allocates the claimed length first: a resource problem); the round trip over field values the API cannot produce is not claimed."),
+   note="B+ tree node files carry no checksum and are not damaged; flips in length fields are included: an Open that allocates more than the simulated machine's 1 GiB counts as an Open that died (two defects of this kind were repaired, d6893b9 and 707acb2)."),
 }
 
 ORDER = sorted(CHECKS)
